@@ -356,6 +356,10 @@ def mon_c17(c):
             d = next((i for i in range(min(len(got), len(want))) if got[i] != want[i]), min(len(got), len(want)))
             return 'serialised text does not denote the GraphInfo value: line %d is %r, expected %r' % (
                 d + 1, got[d] if d < len(got) else None, want[d] if d < len(want) else None)
+    if c.obs.get('GYB', 'E') != 'E':
+        return 'a serialised GraphInfo with an edge to a function that does not exist was read back (GYB=%s)' % c.obs['GYB']
+    if 'GYG' in c.obs and c.obs['GYG'] != 'ok %d' % (len(ge) + 1):
+        return 'a well-formed serialised GraphInfo with one more edge was not read back with that edge (GYG=%s)' % c.obs['GYG']
     if c.obs.get('GS') != '1':
         return 'serialise/deserialise did not yield an equal value (GS=%s)' % c.obs.get('GS')
     if parse_edges(c.obs.get('GSE', '-')) != e:
